@@ -126,3 +126,208 @@ def install_lru(rec: LRURecorder, sval=str) -> None:
     wrap(LRUCache, "values", mk_list("values"))
     wrap(LRUCache, "items", mk_list("items"))
     wrap(LRUCache, "__iter__", mk_list("iter"))
+
+
+# ---------------------------------------------------------------------------
+# Render-context events (ContextTrace.tla).  One trace per public render call:
+# contexts and buffers are numbered in order of appearance inside the trace.
+class ContextRecorder:
+    def __init__(self):
+        self.traces: list = []       # finished traces
+        self.cur = None              # trace being recorded (dict) or None
+        self.depth = 0               # nesting of public render calls (only the outermost one opens a trace)
+        self.label = ""
+
+    def begin(self, template):
+        self.depth += 1
+        if self.depth > 1:
+            return
+        env = template.env
+        lim = lambda v: -1 if v is None else int(v)
+        self.cur = {"N": lim(env.loop_iteration_limit), "L": lim(env.output_stream_limit), "mode": str(env.mode).split(".")[-1].lower(),
+                    "label": self.label, "ev": [], "_ctx": {}, "_buf": {}}
+
+    def end(self, status):
+        self.depth -= 1
+        if self.depth == 0 and self.cur is not None:
+            self.ev("End", o=status)
+            t = self.cur
+            self.cur = None
+            t.pop("_ctx"); t.pop("_buf")
+            if len(t["ev"]) < 4000:          # very long renders (performance tests) are not validated
+                self.traces.append(t)
+
+    def cid(self, ctx):
+        m = self.cur["_ctx"]
+        return m.setdefault(id(ctx), len(m) + 1)
+
+    def bid(self, buf):
+        m = self.cur["_buf"]
+        return m.setdefault(id(buf), len(m) + 1)
+
+    def ev(self, e, c=0, n=0, f=False, o="", b=0, p=0):
+        if self.cur is not None:
+            self.cur["ev"].append({"e": e, "c": c, "n": int(n), "f": bool(f), "o": o, "b": b, "p": p})
+
+
+def install_context(rec: ContextRecorder) -> None:
+    import contextlib
+    from liquid.context import RenderContext
+    from liquid.template import BoundTemplate
+    from liquid.output import LimitedStringIO
+    from liquid.environment import Environment
+    from liquid.exceptions import LoopIterationLimitError, OutputStreamLimitError
+
+    def mk_render(orig):
+        def f(self, *a, **k):
+            rec.begin(self)
+            st = "ok"
+            try:
+                return orig(self, *a, **k)
+            except BaseException as e:
+                st = type(e).__name__
+                raise
+            finally:
+                rec.end(st)
+        return f
+
+    def mk_render_async(orig):
+        async def f(self, *a, **k):
+            rec.begin(self)
+            st = "ok"
+            try:
+                return await orig(self, *a, **k)
+            except BaseException as e:
+                st = type(e).__name__
+                raise
+            finally:
+                rec.end(st)
+        return f
+
+    def mk_init(orig):
+        def f(self, template, *a, **k):
+            orig(self, template, *a, **k)
+            if rec.cur is not None:
+                parent = k.get("parent_context")
+                rec.ev("Ctx", c=rec.cid(self), p=rec.cid(parent) if parent is not None else 0, n=self.loop_iteration_carry)
+        return f
+
+    def mk_copy(orig):
+        def f(self, namespace, disabled_tags=None, carry_loop_iterations=False, template=None, block_scope=False):
+            ctx = orig(self, namespace, disabled_tags=disabled_tags, carry_loop_iterations=carry_loop_iterations, template=template, block_scope=block_scope)
+            if rec.cur is not None:
+                rec.ev("Copy", c=rec.cid(ctx), p=rec.cid(self), f=carry_loop_iterations, n=ctx.loop_iteration_carry)
+            return ctx
+        return f
+
+    def mk_extend(orig):
+        @contextlib.contextmanager
+        def f(self, namespace, template=None):
+            with orig(self, namespace, template=template) as c:
+                if rec.cur is not None:
+                    rec.ev("Push", c=rec.cid(self), n=self.scope.size())
+                try:
+                    yield c
+                finally:
+                    if rec.cur is not None:
+                        rec.ev("Pop", c=rec.cid(self), n=self.scope.size() - 1)
+        return f
+
+    def mk_loop(orig):
+        @contextlib.contextmanager
+        def f(self, namespace, forloop):
+            with orig(self, namespace, forloop) as c:
+                if rec.cur is not None:
+                    rec.ev("LoopEnter", c=rec.cid(self), n=forloop.length)
+                try:
+                    yield c
+                finally:
+                    if rec.cur is not None:
+                        rec.ev("LoopExit", c=rec.cid(self))
+        return f
+
+    def mk_carry(orig):
+        @contextlib.contextmanager
+        def f(self, length):
+            with orig(self, length):
+                if rec.cur is not None:
+                    rec.ev("CarryEnter", c=rec.cid(self), n=length)
+                try:
+                    yield
+                finally:
+                    if rec.cur is not None:
+                        rec.ev("CarryExit", c=rec.cid(self))
+        return f
+
+    def mk_check(orig):
+        def f(self, length=1):
+            try:
+                orig(self, length)
+            except LoopIterationLimitError:
+                if rec.cur is not None:
+                    rec.ev("Check", c=rec.cid(self), n=length, o="raise")
+                raise
+            if rec.cur is not None:
+                rec.ev("Check", c=rec.cid(self), n=length, o="ok")
+        return f
+
+    def mk_getbuf(orig):
+        def f(self, buf=None):
+            new = orig(self, buf)
+            if rec.cur is not None and isinstance(new, LimitedStringIO):
+                rec.ev("Buf", b=rec.bid(new), p=rec.bid(buf) if isinstance(buf, LimitedStringIO) else 0, n=new.limit)
+            return new
+        return f
+
+    def mk_topbuf(orig):
+        def f(self):
+            new = orig(self)
+            if rec.cur is not None and isinstance(new, LimitedStringIO):
+                rec.ev("Buf", b=rec.bid(new), p=0, n=new.limit)
+            return new
+        return f
+
+    def mk_write(orig):
+        def f(self, s):
+            n = len(s.encode("utf-8")) if s else 0
+            try:
+                r = orig(self, s)
+            except OutputStreamLimitError:
+                if rec.cur is not None:
+                    rec.ev("Write", b=rec.bid(self), n=n, o="raise")
+                raise
+            if rec.cur is not None and n:
+                rec.ev("Write", b=rec.bid(self), n=n, o="ok")
+            return r
+        return f
+
+    def mk_error(orig):
+        def f(self, exc, token=None):
+            import warnings
+            with warnings.catch_warnings(record=True) as w:
+                warnings.simplefilter("always")
+                try:
+                    r = orig(self, exc, token=token)
+                except BaseException:
+                    if rec.cur is not None:
+                        rec.ev("Error", o="raise")
+                    raise
+            for x in w:                       # hand the warning on to whoever is listening
+                warnings.warn_explicit(x.message, x.category, x.filename, x.lineno)
+            if rec.cur is not None:
+                rec.ev("Error", o="warn" if w else "ignore")
+            return r
+        return f
+
+    wrap(BoundTemplate, "render", mk_render)
+    wrap(BoundTemplate, "render_async", mk_render_async)
+    wrap(BoundTemplate, "_get_buffer", mk_topbuf)
+    wrap(RenderContext, "__init__", mk_init)
+    wrap(RenderContext, "copy", mk_copy)
+    wrap(RenderContext, "extend", mk_extend)
+    wrap(RenderContext, "loop", mk_loop)
+    wrap(RenderContext, "carry_loop_iterations", mk_carry)
+    wrap(RenderContext, "raise_for_loop_limit", mk_check)
+    wrap(RenderContext, "get_buffer", mk_getbuf)
+    wrap(LimitedStringIO, "write", mk_write)
+    wrap(Environment, "error", mk_error)
